@@ -454,6 +454,8 @@ func checkAssociationsSaved(db *gorm.DB, values reflect.Value) bool {
 		}
 	} else {
 		vistMap := make(visitMap)
+		// the records the operation itself is saving are never saved again through a back-pointer
+		loadOrStoreVisitMap(&vistMap, db.Statement.ReflectValue)
 		loadOrStoreVisitMap(&vistMap, values)
 		db.Set(visitMapStoreKey, &vistMap)
 	}
